@@ -30,6 +30,10 @@ OPER = {
     "far_ii": [{"t": "txt", "s": "8:27"}], "far_kw": [{"t": "txt", "s": "DWORD 2*8:0x0000001b"}], "far_es": [{"t": "txt", "s": '"":5'}],
     "far_ec": [{"t": "txt", "s": "'':5"}], "far_bs": [{"t": "txt", "s": '" ":known'}], "far_il": [{"t": "txt", "s": "8:known"}],
     "far_li": [{"t": "txt", "s": "known:8"}], "far_ri": [{"t": "txt", "s": "AX:8"}], "far_noff": [{"t": "txt", "s": "FAR 8:"}],
+    # far pointers that are judged (statement kind `far`): numeric offset, offset = a defined label, offset = an undefined name
+    "farj_num": [{"t": "far", "seg": 8, "off": 27, "offnm": "", "kw": ""}, {"t": "far", "seg": 16, "off": 0x12345, "offnm": "", "kw": "DWORD"}],
+    "farj_lab": [{"t": "far", "seg": 8, "off": 0, "offnm": "known", "kw": ""}, {"t": "far", "seg": 16, "off": 0, "offnm": "after", "kw": "DWORD"}],
+    "farj_undef": [{"t": "far", "seg": 8, "off": 0, "offnm": "nowhere", "kw": ""}, {"t": "far", "seg": 16, "off": 0, "offnm": "nowhere_either", "kw": "DWORD"}],
     "str": [{"t": "txt", "s": '"ab"'}],
     "chr": [{"t": "txt", "s": "'a'"}],
 }
@@ -45,6 +49,11 @@ def shapes(ctx, part):
 
 def statement(mn, shape, variant=0):
     ops = [json.loads(json.dumps(OPER[k][(variant + 3 * j) % len(OPER[k])])) for j, k in enumerate(shape)]
+    if len(ops) == 1 and ops[0]["t"] == "far":
+        o = ops[0]
+        if mn == "JMP":
+            return {"k": "far", "mn": mn, "seg": o["seg"], "off": o["off"], "offnm": o["offnm"], "kw": o["kw"], "sty": "h"}
+        ops = [{"t": "txt", "s": "%s%d:%s" % ((o["kw"] + " ") if o["kw"] else "", o["seg"], o["offnm"] or ("0x%x" % o["off"]))}]
     if mn in BRANCH and len(ops) == 1 and ops[0]["t"] in ("l", "i"):
         o = ops[0]
         tgt = {"t": "l", "nm": o["nm"], "add": 0} if o["t"] == "l" else {"t": "n", "v": o["v"], "sty": o.get("sty", "d")}
